@@ -52,7 +52,7 @@ class Model:
 
 
 def gen_model(rng: random.Random, *, max_demes=6, time_scale=8, gen_times=(1, 2, 4, 0.5),
-              ms_expressible=False, allow_f2=True) -> Model:
+              ms_expressible=False, allow_f2=True, near=0.08) -> Model:
     m = Model()
     units = rng.choice(["generations", "generations", "years", "weeks"])
     m.header["time_units"] = units
@@ -88,6 +88,9 @@ def gen_model(rng: random.Random, *, max_demes=6, time_scale=8, gen_times=(1, 2,
                 pref = [t for t in ok if any(t == a["end_time"] for a in cand)]
                 start = rng.choice(pref) if pref and rng.random() < 0.6 else rng.choice(ok)
                 anc = [a["name"] for a in cand]
+        if anc and near and start != INF and rng.random() < near and all(a["start_time"] > start * (1 + 2.0 ** -40) for a in m.demes if a["name"] in anc):
+            # near-coincidence: within 1e-9 (relative) of a grid time, but not equal to it
+            start = start * (1 + 2.0 ** -40)
         d["ancestors"] = anc
         d["proportions"] = list(rng.choice(ANC_PROPS[len(anc)])) if anc else []
         d["start_time"] = start
@@ -207,7 +210,7 @@ def gen_model(rng: random.Random, *, max_demes=6, time_scale=8, gen_times=(1, 2,
             lo = max([dest["end_time"]] + [s["end_time"] for s in srcs])
             hi = min([dest["start_time"]] + [s["start_time"] for s in srcs])
             cands = set(t for t in grid if lo <= t <= hi) | set(t + time_scale // 2 for t in grid if lo <= t + time_scale // 2 <= hi)
-            cands |= {lo} if lo > 0 else set()
+            cands |= {lo} if (lo > 0 and lo <= hi) else set()
             cands = [t for t in cands if t > 0 and t != dest["end_time"] and all(t != s["start_time"] for s in srcs) and t != INF]
             if not cands:
                 continue
